@@ -148,3 +148,102 @@ theorem forVals_zero (a b : Int) : forVals a b 0 = [] := by
   | succ n => simp [loopVals]
 
 end Occa.Functional
+
+/-! ### unit-step segments and chunking -/
+
+namespace Occa.Functional
+
+theorem upCount_one (a b : Int) : upCount a b 1 = (b - a).toNat := by
+  unfold upCount
+  simp
+
+theorem forVals_one (a b : Int) :
+    forVals a b 1 = (List.range (b - a).toNat).map (fun (i : Nat) => a + (i : Int)) := by
+  rw [forVals_up a b 1 (by decide), upCount_one]
+  apply List.map_congr_left
+  intro i _
+  omega
+
+theorem mem_forVals_one (a b x : Int) : x ∈ forVals a b 1 ↔ a ≤ x ∧ x < b := by
+  rw [forVals_one]
+  simp only [List.mem_map, List.mem_range]
+  constructor
+  · rintro ⟨i, hi, rfl⟩
+    omega
+  · intro h
+    exact ⟨(x - a).toNat, by omega, by omega⟩
+
+theorem forVals_nil (a b st : Int) (hst : 0 < st) (h : b ≤ a) : forVals a b st = [] := by
+  rw [forVals_up a b st hst, upCount_ge a b st hst h]
+  rfl
+
+theorem forVals_cons (a b st : Int) (hst : 0 < st) (h : a < b) :
+    forVals a b st = a :: forVals (a + st) b st := by
+  rw [forVals_up a b st hst, forVals_up (a + st) b st hst, upCount_lt a b st hst h, List.range_succ_eq_map]
+  simp only [List.map_cons, List.map_map]
+  congr 1
+  · simp
+  · apply List.map_congr_left
+    intro i _
+    simp only [Function.comp_apply, Nat.succ_eq_add_one]
+    push_cast
+    rw [Int.mul_add]; omega
+
+theorem forVals_split_one (a m b : Int) (h1 : a ≤ m) (h2 : m ≤ b) :
+    forVals a b 1 = forVals a m 1 ++ forVals m b 1 := by
+  rw [forVals_one a b, forVals_one a m, forVals_one m b]
+  have e : (b - a).toNat = (m - a).toNat + (b - m).toNat := by omega
+  rw [e, List.range_add, List.map_append, List.map_map]
+  congr 1
+  apply List.map_congr_left
+  intro i _
+  simp only [Function.comp_apply]
+  omega
+
+/-- Lemma B: `m` chunks of width `c` starting at `a` enumerate `[a, a + m*c)` in order -/
+theorem chunk_flatMap (c : Int) (hc : 0 < c) :
+    ∀ (m : Nat) (a : Int),
+      (forVals a (a + (m : Int) * c) c).flatMap (fun t => forVals t (t + c) 1) = forVals a (a + (m : Int) * c) 1 := by
+  intro m
+  induction m with
+  | zero =>
+    intro a
+    have e : a + ((0 : Nat) : Int) * c = a := by simp
+    rw [e, forVals_nil a a c hc (by omega), forVals_nil a a 1 (by decide) (by omega)]
+    rfl
+  | succ m ih =>
+    intro a
+    have hm : (0 : Int) ≤ (m : Int) * c := Int.mul_nonneg (by omega) (by omega)
+    have e : a + ((m + 1 : Nat) : Int) * c = (a + c) + (m : Int) * c := by
+      push_cast
+      rw [Int.add_mul]; omega
+    rw [e, forVals_cons a _ c hc (by omega), List.flatMap_cons, ih (a + c),
+      forVals_split_one a (a + c) (a + c + (m : Int) * c) (by omega) (by omega)]
+
+/-- two upward loops from the same start with the same step and the same count visit the same values -/
+theorem forVals_congr_count (a b b' st : Int) (hst : 0 < st) (h : upCount a b st = upCount a b' st) :
+    forVals a b st = forVals a b' st := by
+  rw [forVals_up a b st hst, forVals_up a b' st hst, h]
+
+/-- `filter` distributes over `flatMap` -/
+theorem filter_flatMap' {α β : Type} (p : β → Bool) (f : α → List β) :
+    ∀ l : List α, (l.flatMap f).filter p = l.flatMap (fun x => (f x).filter p)
+  | [] => rfl
+  | x :: l => by simp [List.flatMap_cons, List.filter_append, filter_flatMap' p f l]
+
+theorem filter_lt_forVals_one (a b N : Int) (h1 : a ≤ N) (h2 : N ≤ b) :
+    (forVals a b 1).filter (fun i => decide (i < N)) = forVals a N 1 := by
+  rw [forVals_split_one a N b h1 h2, List.filter_append]
+  have k1 : (forVals a N 1).filter (fun i => decide (i < N)) = forVals a N 1 := by
+    apply List.filter_eq_self.mpr
+    intro x hx
+    have := (mem_forVals_one a N x).mp hx
+    simp; omega
+  have k2 : (forVals N b 1).filter (fun i => decide (i < N)) = [] := by
+    apply List.filter_eq_nil_iff.mpr
+    intro x hx
+    have := (mem_forVals_one N b x).mp hx
+    simp; omega
+  rw [k1, k2, List.append_nil]
+
+end Occa.Functional
